@@ -72,10 +72,12 @@ def module_source(kinds, layout='functions'):
         kind = kinds[i]
         if layout == 'mixed' and i % 3 == 1:
             cname = 'K%d' % i
-            src += ['class %s(object):' % cname, '    def m%d(self):' % i, '        r"""']
+            # the first method is called like the module's first function (a class may well have a method named like a function)
+            mname = 'f0' if i == 1 else 'm%d' % i
+            src += ['class %s(object):' % cname, '    def %s(self):' % mname, '        r"""']
             src += ['        ' + l for l in doc_lines(kind, i)]
             src += ['        """', '']
-            ids.append(('%s.m%d:0' % (cname, i), '%s.m%d' % (cname, i), kind))
+            ids.append(('%s.%s:0' % (cname, mname), '%s.%s' % (cname, mname), kind))
             i += 1
         elif layout == 'mixed' and i % 3 == 2 and i + 1 < n:
             src += ['def g%d():' % i, '    r"""', '    Example:']
